@@ -91,8 +91,27 @@ class Ctx:
         c.level = self.level
         return c
 
-    def _assumed_ok(self, subj):
+    def _assumed_ok(self, subj, _d=0):
         r = assumed_ok(self.assumptions, subj)
+        if r is None and subj[0] == "call" and self.assumptions and _d < 2:
+            # an Option/Result computed by a small local function: its Some/Ok-ness in this world
+            cb = _callee_body(self.prog, subj)
+            if cb is not None and cb.kind == "fn" and len(cb.blocks) < 200:
+                rt = self._callee_return(subj, cb)
+                if rt is not None:
+                    vals = set()
+                    for a in (rt[1] if rt[0] == "phi" else (rt,)):
+                        if a[0] == "agg" and a[2] in ("Some", "Ok"):
+                            vals.add(True)
+                        elif a[0] == "agg" and a[2] in ("None", "Err"):
+                            vals.add(False)
+                        elif a[0] == "call" and a[1] == "std::ops::FromResidual::from_residual":
+                            vals.add(False)
+                        else:
+                            v = self._assumed_ok(a, _d + 1)
+                            vals.add(v)
+                    if len(vals) == 1 and None not in vals:
+                        return vals.pop()
         if r is None and subj[0] == "call" and subj[1] == "std::option::Option::filter" and len(subj[2]) == 2 and subj[2][1][0] == "closure":
             # x.filter(p) is Some exactly when x is Some and p(x) holds
             inner = self._assumed_ok(subj[2][0])
@@ -459,7 +478,7 @@ def assumed_ok(assumptions, subj, _d=0):
         for pred, value in assumptions:
             if isinstance(value, tuple) and value[0] == "len" and pred(subj[2][0]):
                 return value[1] > 0
-    if subj[0] == "call" and subj[1] in SOMENESS_PRESERVING and subj[2] and _d < 4:
+    if subj[0] == "call" and (subj[1] in SOMENESS_PRESERVING or subj[1] in OKNESS_PRESERVING) and subj[2] and _d < 4:
         # x.map(f) is Some exactly when x is
         return assumed_ok(assumptions, subj[2][0], _d + 1)
     return None
@@ -1036,8 +1055,16 @@ def _ctor_norm(prog, t, _d=0):
     (`Transfer::new(to, coin).with_reply_id(id)`) is passed on as the struct value they build, so
     that the callee's reads of its fields resolve to the caller's terms.  Only calls that return a
     freshly built struct of the workspace are looked through; every other call stays as written."""
-    from .mir import intern
-    if t[0] != "call" or _d > 3:
+    from .mir import intern, field_of
+    if _d > 3:
+        return t
+    if t[0] == "tuple":
+        el = tuple(_ctor_norm(prog, a, _d + 1) for a in t[1])
+        return intern(("tuple", el)) if el != t[1] else t
+    if t[0] == "field":
+        base = _ctor_norm(prog, t[1], _d + 1)
+        return intern(field_of(base, t[2])) if base is not t[1] and base != t[1] else t
+    if t[0] != "call":
         return t
     cb = _callee_body(prog, t)
     if cb is None or not _is_pure_small(prog, cb):
